@@ -680,7 +680,8 @@ class Executor:
         return [Poly.atom(("bit", a, i)) for i in range(width)]
 
     def bits_cheap(self, p):
-        if p.const_value() is not None or p.is_atom() is not None:
+        a = p.is_atom()
+        if p.const_value() is not None or (a is not None and (a[0] == "i" or is_bool_atom(a))):
             return True
         atoms = p.atoms()
         return all(is_bool_atom(x) for x in atoms) and len(atoms) <= 10
